@@ -14,6 +14,7 @@ Driver for stream `witness` (C15). One op per line, one observation per line.
       item := N | T | F | I int | S hex | U hex | A n item^n | R n item^n | M | X
               (null, true, false, Integer, ByteString, Buffer, Array, Struct, Map, Interop)
   ssi <item>                       -> ok <signer> | err               (`signerFromItem`: Signer.FromStackItem)
+  sfs <hex of the string>          -> ok <byte> | err                 (`scopesFromString`: ScopesFromString, the "scopes" of a signer in JSON)
   cjs <json>                       -> ok <cond> | err                 (`condFromJ`: UnmarshalConditionJSON)
   rjs <json>                       -> ok <action> <cond> | err       (`ruleFromJ`: WitnessRule.UnmarshalJSON)
       json := n | t | f | i int | s hex | a n json^n | o n (hex json)^n     (strings and keys as hex of their bytes)
@@ -45,6 +46,7 @@ import NeoModel.Model.Witness.Ripemd160
 import NeoModel.Model.Witness.Items
 import NeoModel.Model.Witness.Json
 import NeoModel.Model.Witness.Try
+import NeoModel.Model.Witness.ScopeJson
 open NeoModel NeoModel.Witness
 
 abbrev P (α : Type) := List String → Option (α × List String)
@@ -460,6 +462,12 @@ def step (tbl : Array Env) (ws : List String) : Array Env × String :=
         | some sg => "ok " ++ showSigner sg
         | none => "err")
     | _ => (tbl, "bad-op")
+  | ["sfs", h] =>
+    match Hex.decode h with
+    | some bs => (tbl, match scopesFromString (bytesToChars bs) with
+        | some b => s!"ok {b}"
+        | none => "err")
+    | none => (tbl, "bad-op")
   | "rjs" :: rest =>
     match pJson rest with
     | some (v, []) => (tbl, showRuleRes (ruleFromJ decKeyNum v))
